@@ -13,7 +13,7 @@ DESCRIPTION = {
              "(class, present fields, serializer, batched, payload digest)."),
     "assumptions": [
         "absent == falsy default (None/False/''/[]/{}) and tuple == list are treated as equal field values (the wire format omits defaults)",
-        "payload floats are finite IEEE doubles in the normal range and must come back as the same float (subnormals come back from the bjdata encoder as an equal Decimal, NaN/inf have no JSON form: not generated); Decimals and FlatBuffers are outside the statement; JSON strings starting with NUL are the documented binary convention and not generated",
+        "payload floats are finite IEEE doubles of magnitude 0 or >= 2.3e-308 and must come back as the same float (smaller ones come back from the bjdata encoder as an equal Decimal, NaN/inf have no JSON form: not generated); Decimals and FlatBuffers are outside the statement; JSON strings starting with NUL are the documented binary convention and not generated",
         "UBJSON is backed by the installed bjdata package",
     ],
 }
